@@ -13,6 +13,7 @@ import (
 	"os"
 	"reflect"
 	"strconv"
+	"strings"
 )
 
 type vSpec struct {
@@ -235,6 +236,28 @@ func vOr(a, b bool) bool                  { return a || b }
 func vImplies(a, b bool) bool             { return !a || b }
 func vExpectPanic(b bool)                 {}
 func vOrderAll(b bool)                    {}
+// vParam: a size parameter of the harness (second argument: the quick-tier value);
+// the thorough tier's values are listed under "params" in checks.json
+func vParam(name string, def int) int {
+	for _, kv := range strings.Split(os.Getenv("VERIF_PARAMS"), ",") {
+		if i := strings.IndexByte(kv, '='); i > 0 && kv[:i] == name {
+			n, err := strconv.Atoi(kv[i+1:])
+			if err == nil {
+				return n
+			}
+		}
+	}
+	return def
+}
+
+// vP: a size parameter with its quick and thorough values; "params" in checks.json overrides either
+func vP(name string, quick, thorough int) int {
+	if vTier() == 1 {
+		return vParam(name, thorough)
+	}
+	return vParam(name, quick)
+}
+
 func vTier() int {
 	if os.Getenv("VERIF_TIER") == "thorough" {
 		return 1
